@@ -315,6 +315,151 @@ def has_negative_element_size(b, depth=0):
     return False
 
 
+def truncated_element(b, depth=0):
+    """Structural walk over the bundle elements (sizes only, the way every
+    reader has to walk them: zero and unaligned sizes are stepped over): does
+    the datagram END INSIDE an element - 1-3 bytes left where the int32 size
+    prefix of the next element is due ('size-prefix'), or an element whose
+    size prefix promises more bytes than are left ('body')?  Nested bundles are
+    walked the same way inside their own extent.  -> None | 'size-prefix' |
+    'body'.  A negative size ends the walk (class of its own).
+
+    This is the quantifier's 'truncated bundle element': what is left of a
+    datagram that lost its tail (and, byte for byte the same thing, a bundle
+    followed by 1-3 stray bytes).  No reading of such bytes yields a packet -
+    the element that was cut is not there - so nothing may be invoked, the
+    elements in front of the cut included."""
+    b = bytes(b)
+    if b[:8] != b'#bundle\0' or len(b) < 16 or depth > 60:
+        return None
+    i = 16
+    while i < len(b):
+        if i + 4 > len(b):
+            return 'size-prefix'
+        n, = struct.unpack_from('>i', b, i)
+        i += 4
+        if n < 0:
+            return None
+        if i + n > len(b):
+            return 'body'
+        inner = truncated_element(b[i:i + n], depth + 1)
+        if inner is not None:
+            return inner
+        i += n
+    return None
+
+
+def bundle_layout(b, base=0, depth=0):
+    """Offsets of a VALID bundle by what is there: {offset: class} for every
+    cut position 0..len(b) ('header', 'boundary' = the end of a top-level
+    element / of the header: what is left is a valid shorter bundle,
+    'size-prefix-1..3' = that many bytes into an element's size prefix,
+    'body' = inside a message, 'nested-...' = the same inside a nested
+    bundle, where every cut is a cut of the enclosing element's body too)."""
+    out = {}
+    pre = 'nested-' if depth else ''
+    for k in range(16):
+        out[base + k] = pre + 'header'
+    i = 16
+    out[base + 16] = pre + 'boundary'
+    while i < len(b):
+        n, = struct.unpack_from('>i', b, i)
+        for k in (1, 2, 3):
+            out[base + i + k] = f'{pre}size-prefix-{k}'
+        i += 4
+        if b[i:i + 8] == b'#bundle\0':
+            out.update(bundle_layout(b[i:i + n], base + i, depth + 1))
+        else:
+            for k in range(n):
+                out[base + i + k] = pre + 'body'
+        i += n
+        out[base + i] = pre + 'boundary'
+    return out
+
+
+def bundle_for_cut(rng, paths, nested=None):
+    """A valid bundle of 2-4 elements whose messages all go to `paths` (so
+    that standing responders fire for whatever is dispatched); one element may
+    be a nested bundle of 1-3 messages."""
+    tt = rng.choice([1, 1, 2 ** 63, rng.getrandbits(64)])
+    els = []
+    n = rng.choice([2, 2, 3, 3, 4])
+    nested_at = rng.randrange(n) if (rng.random() < 0.3 if nested is None else nested) else -1
+    for k in range(n):
+        if k == nested_at:
+            inner = [osc.enc_msg(rng.choice(paths), *rand_args(rng))
+                     for _ in range(rng.randint(1, 3))]
+            els.append(osc.enc_bundle(rng.choice([tt, 1]), *inner))
+        else:
+            els.append(osc.enc_msg(rng.choice(paths), *rand_args(rng)))
+    return osc.enc_bundle(tt, *els)
+
+
+CUT_CLASSES = ['size-prefix-1', 'size-prefix-2', 'size-prefix-3', 'body', 'boundary',
+               'header', 'nested-size-prefix-1', 'nested-size-prefix-2',
+               'nested-size-prefix-3', 'nested-body', 'nested-boundary', 'nested-header']
+
+
+def bundle_cut(rng, paths):
+    """A valid multi-element bundle cut at a byte offset; the class of the
+    offset is drawn first, then the offset within the class, so that the few
+    offsets inside size prefixes are reached as often as the many inside
+    message bodies.  -> (bytes, label)"""
+    d = bundle_for_cut(rng, paths)
+    lay = bundle_layout(d)
+    by_class = {}
+    for off, c in lay.items():
+        if off < len(d):
+            by_class.setdefault(c, []).append(off)
+    c = rng.choice(sorted(by_class))
+    off = rng.choice(by_class[c])
+    return d[:off], 'bundle-cut/' + c
+
+
+EXT_KINDS = ['nul', 'nul', 'ff', 'random', 'element-prefix']
+
+
+def bundle_extended(rng, paths):
+    """A valid multi-element bundle followed by 1-8 bytes nobody announced
+    (NULs - 'padding' -, 0xff, arbitrary bytes, the first bytes of one more
+    element); in a fifth of the cases the bytes are appended to a nested
+    bundle whose size prefix is enlarged to cover them.  -> (bytes, label)"""
+    kind = rng.choice(EXT_KINDS)
+    k = rng.choice([1, 2, 3, 1, 2, 3, 4, 5, 6, 7, 8])
+    if kind == 'nul':
+        tail = b'\0' * k
+    elif kind == 'ff':
+        tail = b'\xff' * k
+    elif kind == 'random':
+        tail = bytes(rng.randrange(256) for _ in range(k))
+    else:
+        m = osc.enc_msg(rng.choice(paths), *rand_args(rng))
+        tail = (_i32(len(m)) + m)[:k]
+    if rng.random() < 0.2:
+        inner = osc.enc_bundle(1, *[osc.enc_msg(rng.choice(paths), *rand_args(rng))
+                                    for _ in range(rng.randint(1, 2))]) + tail
+        els = [osc.enc_msg(rng.choice(paths), *rand_args(rng)) for _ in range(rng.randint(1, 2))]
+        els.insert(rng.randint(0, len(els)), inner)
+        return osc.enc_bundle(1, *els), f'bundle-extended/nested/{kind}-{k}'
+    return bundle_for_cut(rng, paths) + tail, f'bundle-extended/{kind}-{k}'
+
+
+def cut_sweep(rng, paths):
+    """Exhaustive companion of bundle_cut / bundle_extended: one flat and one
+    nested bundle cut at EVERY offset 0..len-1, and followed by 1..8 NUL / 0xff
+    bytes.  -> [(bytes, label)]"""
+    out = []
+    for nested in (False, True):
+        d = bundle_for_cut(rng, paths, nested=nested)
+        lay = bundle_layout(d)
+        for off in range(len(d)):
+            out.append((d[:off], 'sweep-cut/' + lay[off]))
+        for k in range(1, 9):
+            out.append((d + b'\0' * k, f'sweep-extended/nul-{k}'))
+            out.append((d + b'\xff' * k, f'sweep-extended/ff-{k}'))
+    return out
+
+
 # classes for which *no* reading of the bytes yields an OSC packet, or which
 # the property statement names explicitly: any invocation is a violation
 STRICT_NOTHING = {'not-osc', 'addr-unterminated', 'bundle-short',
@@ -440,6 +585,10 @@ def targeted(rng, paths):
         return m, k
     if k == 'no-typetags':
         return osc.pad_str(rng.choice(paths)), k
+    if k == 'bundle-cut':
+        return bundle_cut(rng, paths)
+    if k == 'bundle-extended':
+        return bundle_extended(rng, paths)
     raise AssertionError(k)
 
 
@@ -452,7 +601,8 @@ TARGETS = ['empty', 'garbage', 'no-slash', 'addr-unterminated', 'bundle-short',
            'arg-truncated', 'string-unterminated', 'blob-size-negative',
            'blob-size-oversized', 'bad-utf8-address', 'bad-utf8-string',
            'trailing-bytes', 'bad-pattern', 'deep', 'no-typetags', 'optional-tags',
-           'optional-tags']
+           'optional-tags', 'bundle-cut', 'bundle-cut', 'bundle-cut', 'bundle-cut',
+           'bundle-extended', 'bundle-extended']
 
 
 def mutate(rng, d):
@@ -520,4 +670,28 @@ def selftest():
     assert {'valid', 'elem-size-negative', 'elem-size-oversized',
             'blob-size-negative', 'bundle-short'} <= seen, seen
     assert diagnose(b'#bundle\0' + b'\0' * 8 + _i32(-4))[0] == 'elem-size-negative'
+    # cut classes: every cut of a valid bundle that is not at a top-level element
+    # boundary (or inside the header) ends inside an element, and only those
+    for nested in (False, True):
+        d = bundle_for_cut(rng, HIST_PATHS, nested=nested)
+        assert diagnose(d)[0] == 'valid' and truncated_element(d) is None
+        lay = bundle_layout(d)
+        assert sorted(lay) == list(range(len(d) + 1)), (len(d), sorted(lay)[-3:])
+        for off in range(len(d) + 1):
+            c, t = lay[off], truncated_element(d[:off])
+            if c == 'boundary':
+                assert t is None and diagnose(d[:off])[0] == 'valid', (off, c, t)
+            elif c == 'header':
+                assert t is None, (off, c, t)
+            elif c.startswith('size-prefix'):
+                assert t == 'size-prefix', (off, c, t)
+            else:
+                assert t == 'body', (off, c, t)
+        for k in (1, 2, 3, 5, 6, 7):
+            assert truncated_element(d + b'\0' * k) == 'size-prefix'
+        assert truncated_element(d + b'\0' * 4) is None
+    seen = set()
+    for _ in range(600):
+        seen.add(bundle_cut(rng, HIST_PATHS)[1])
+    assert {'bundle-cut/' + c for c in CUT_CLASSES} <= seen, seen
     return True
